@@ -89,6 +89,10 @@ class C03(RegConcCheck):
     prop_module = "SigHook.Props.C03"
 
     def replay(self, payload):
+        if payload.get("flags"):
+            from . import c15
+            fi, _ = c15.run_blocks([payload["ops"]])
+            return any("ATEXIT-HOOK-RAN" in l for l in fi[0]), "\n".join(fi[0])
         if payload.get("pipes"):
             from . import c13
             pi, _ = c13.run_blocks([payload["ops"]])
@@ -134,6 +138,21 @@ class C03(RegConcCheck):
                                         "payload": {"ops": b, "impl": impl, "pipes": True}})
         res["evaluations"] += len(pblocks)
         res["distribution"]["pipe_wake_probes"] = len(pblocks)
+        # the built-in action that ends the process: `register_conditional_shutdown` must leave with `_exit`
+        # from inside the delivery - `exit()` would run exit-time hooks (locks, allocation, waiting) in a
+        # signal handler. Forked probes with an atexit marker.
+        from . import c15
+        fblocks = [["shutdown %d b0" % st, "set b0 1", "raise"] for st in (0, 1, 42, 255)]
+        fblocks += [["shutdown 42 b0", "flag b0", "raise", "raise"], ["flag b1", "shutdown 7 b0", "set b0 1", "usize u0 5", "raise"]]
+        fi, _fm = c15.run_blocks(fblocks)
+        for b, impl in zip(fblocks, fi):
+            if any("ATEXIT-HOOK-RAN" in l for l in impl):
+                res["failures"].append({"kind": "violation", "key": "C03:shutdown-hooks",
+                                        "what": "ops `%s`: the conditional-shutdown action ran the process's exit-time hooks from inside the signal handler (exit() instead of _exit(): not async-signal-safe, may lock, allocate or wait)" % "; ".join(b),
+                                        "payload": {"ops": b, "impl": impl, "flags": True}})
+        res["evaluations"] += len(fblocks)
+        res["distribution"]["shutdown_probes"] = len(fblocks)
+        res["rule"] += "; plus forked probes of the conditional-shutdown action with an atexit marker (the delivery must end the process without running exit-time hooks)"
         res["rule"] += "; plus forked probes of the `low_level::pipe` wake on pipes / stream / datagram sockets, empty and full, that the caller left blocking (no call that can block may be made from the delivery)"
         uniq = {}
         for f in res["failures"]:
